@@ -1,1 +1,635 @@
-pub fn y(){}
+//! Binding of the reference model to the real, statically typed code of `/repo`.
+//!
+//! `Subject` converts between dynamic `Value`s and real Rust values; `vt::VT` is a table of
+//! monomorphic function pointers per registered type, so checks are written once, dynamically.
+
+pub mod derived;
+pub mod drivers;
+pub mod inputs;
+pub mod registry;
+pub mod vt;
+
+use bitvec::prelude::{BitBox, BitOrder, BitStore, BitVec, Lsb0, Msb0};
+use parity_scale_codec::{Compact, OptionBool};
+use refmodel::{b, SeqKind, Shape, Value, WrapKind};
+use std::{
+	borrow::Cow,
+	collections::{BTreeMap, BTreeSet, BinaryHeap, LinkedList, VecDeque},
+	marker::PhantomData,
+	mem::size_of,
+	num::*,
+	ops::{Range, RangeInclusive},
+	rc::Rc,
+	sync::Arc,
+	time::Duration,
+};
+
+pub trait Subject: Sized + 'static {
+	/// every value encodes to the empty string
+	const ZW: bool = false;
+	fn shape() -> Shape;
+	fn from_value(v: &Value) -> Self;
+	fn to_value(&self) -> Value;
+	/// an instance of a zero-width type
+	fn zw_instance() -> Self {
+		unreachable!("not a zero-width type")
+	}
+	/// bytes of decoded data the value holds on the heap: (exactly counted part, tree part which
+	/// the property only bounds within a factor of two)
+	fn heap_payload(&self) -> (usize, usize) {
+		(0, 0)
+	}
+}
+
+fn add2(a: (usize, usize), c: (usize, usize)) -> (usize, usize) {
+	(a.0 + c.0, a.1 + c.1)
+}
+
+macro_rules! impl_uint {
+	($($t:ty),*) => {$(
+		impl Subject for $t {
+			fn shape() -> Shape { Shape::UInt(<$t>::BITS) }
+			fn from_value(v: &Value) -> Self { match v { Value::U(x) => *x as $t, _ => panic!("bad value {:?} for {}", v, stringify!($t)) } }
+			fn to_value(&self) -> Value { Value::U(*self as u128) }
+		}
+		impl Subject for Compact<$t> {
+			fn shape() -> Shape { Shape::Compact(<$t>::BITS) }
+			fn from_value(v: &Value) -> Self { match v { Value::U(x) => Compact(*x as $t), _ => panic!("bad value {:?}", v) } }
+			fn to_value(&self) -> Value { Value::U(self.0 as u128) }
+		}
+	)*}
+}
+impl_uint!(u8, u16, u32, u64, u128);
+
+macro_rules! impl_sint {
+	($($t:ty),*) => {$(
+		impl Subject for $t {
+			fn shape() -> Shape { Shape::SInt(<$t>::BITS) }
+			fn from_value(v: &Value) -> Self { match v { Value::I(x) => *x as $t, _ => panic!("bad value {:?} for {}", v, stringify!($t)) } }
+			fn to_value(&self) -> Value { Value::I(*self as i128) }
+		}
+	)*}
+}
+impl_sint!(i8, i16, i32, i64, i128);
+
+macro_rules! impl_nzu {
+	($($t:ty),*) => {$(
+		impl Subject for $t {
+			fn shape() -> Shape { Shape::NonZeroU(<$t>::BITS) }
+			fn from_value(v: &Value) -> Self { match v { Value::U(x) => <$t>::new(*x as _).unwrap(), _ => panic!("bad value {:?}", v) } }
+			fn to_value(&self) -> Value { Value::U(self.get() as u128) }
+		}
+	)*}
+}
+impl_nzu!(NonZeroU8, NonZeroU16, NonZeroU32, NonZeroU64, NonZeroU128);
+macro_rules! impl_nzi {
+	($($t:ty),*) => {$(
+		impl Subject for $t {
+			fn shape() -> Shape { Shape::NonZeroI(<$t>::BITS) }
+			fn from_value(v: &Value) -> Self { match v { Value::I(x) => <$t>::new(*x as _).unwrap(), _ => panic!("bad value {:?}", v) } }
+			fn to_value(&self) -> Value { Value::I(self.get() as i128) }
+		}
+	)*}
+}
+impl_nzi!(NonZeroI8, NonZeroI16, NonZeroI32, NonZeroI64, NonZeroI128);
+
+impl Subject for f32 {
+	fn shape() -> Shape {
+		Shape::F32
+	}
+	fn from_value(v: &Value) -> Self {
+		match v {
+			Value::F32(x) => f32::from_bits(*x),
+			_ => panic!("bad value {:?}", v),
+		}
+	}
+	fn to_value(&self) -> Value {
+		Value::F32(self.to_bits())
+	}
+}
+impl Subject for f64 {
+	fn shape() -> Shape {
+		Shape::F64
+	}
+	fn from_value(v: &Value) -> Self {
+		match v {
+			Value::F64(x) => f64::from_bits(*x),
+			_ => panic!("bad value {:?}", v),
+		}
+	}
+	fn to_value(&self) -> Value {
+		Value::F64(self.to_bits())
+	}
+}
+impl Subject for bool {
+	fn shape() -> Shape {
+		Shape::Bool
+	}
+	fn from_value(v: &Value) -> Self {
+		match v {
+			Value::Bool(x) => *x,
+			_ => panic!("bad value {:?}", v),
+		}
+	}
+	fn to_value(&self) -> Value {
+		Value::Bool(*self)
+	}
+}
+impl Subject for () {
+	const ZW: bool = true;
+	fn shape() -> Shape {
+		Shape::Unit
+	}
+	fn from_value(_: &Value) -> Self {}
+	fn to_value(&self) -> Value {
+		Value::Unit
+	}
+	fn zw_instance() -> Self {}
+}
+impl Subject for Compact<()> {
+	const ZW: bool = true;
+	fn shape() -> Shape {
+		Shape::CompactUnit
+	}
+	fn from_value(_: &Value) -> Self {
+		Compact(())
+	}
+	fn to_value(&self) -> Value {
+		Value::Unit
+	}
+	fn zw_instance() -> Self {
+		Compact(())
+	}
+}
+impl<T: 'static> Subject for PhantomData<T> {
+	const ZW: bool = true;
+	fn shape() -> Shape {
+		Shape::Phantom
+	}
+	fn from_value(_: &Value) -> Self {
+		PhantomData
+	}
+	fn to_value(&self) -> Value {
+		Value::Unit
+	}
+	fn zw_instance() -> Self {
+		PhantomData
+	}
+}
+
+impl Subject for OptionBool {
+	fn shape() -> Shape {
+		Shape::OptionBool
+	}
+	fn from_value(v: &Value) -> Self {
+		match v {
+			Value::None_ => OptionBool(None),
+			Value::Some_(x) => OptionBool(Some(bool::from_value(x))),
+			_ => panic!("bad value {:?}", v),
+		}
+	}
+	fn to_value(&self) -> Value {
+		match self.0 {
+			None => Value::None_,
+			Some(x) => Value::Some_(Box::new(Value::Bool(x))),
+		}
+	}
+}
+
+impl<T: Subject> Subject for Option<T> {
+	fn shape() -> Shape {
+		Shape::Option(b(T::shape()))
+	}
+	fn from_value(v: &Value) -> Self {
+		match v {
+			Value::None_ => None,
+			Value::Some_(x) => Some(T::from_value(x)),
+			_ => panic!("bad value {:?}", v),
+		}
+	}
+	fn to_value(&self) -> Value {
+		match self {
+			None => Value::None_,
+			Some(x) => Value::Some_(Box::new(x.to_value())),
+		}
+	}
+	fn heap_payload(&self) -> (usize, usize) {
+		self.as_ref().map_or((0, 0), |x| x.heap_payload())
+	}
+}
+
+impl<T: Subject, E: Subject> Subject for Result<T, E> {
+	fn shape() -> Shape {
+		Shape::Result(b(T::shape()), b(E::shape()))
+	}
+	fn from_value(v: &Value) -> Self {
+		match v {
+			Value::Ok_(x) => Ok(T::from_value(x)),
+			Value::Err_(x) => Err(E::from_value(x)),
+			_ => panic!("bad value {:?}", v),
+		}
+	}
+	fn to_value(&self) -> Value {
+		match self {
+			Ok(x) => Value::Ok_(Box::new(x.to_value())),
+			Err(x) => Value::Err_(Box::new(x.to_value())),
+		}
+	}
+	fn heap_payload(&self) -> (usize, usize) {
+		match self {
+			Ok(x) => x.heap_payload(),
+			Err(x) => x.heap_payload(),
+		}
+	}
+}
+
+fn seq_from<T: Subject>(v: &Value) -> Vec<T> {
+	match v {
+		Value::List(xs) => xs.iter().map(T::from_value).collect(),
+		Value::Rep(n) => (0..*n).map(|_| T::zw_instance()).collect(),
+		_ => panic!("bad sequence value {:?}", v),
+	}
+}
+
+fn seq_to<'a, T: Subject + 'a>(it: impl ExactSizeIterator<Item = &'a T>) -> Value {
+	if T::ZW {
+		Value::Rep(it.len() as u64)
+	} else {
+		Value::List(it.map(|x| x.to_value()).collect())
+	}
+}
+
+fn seq_payload<'a, T: Subject + 'a>(it: impl ExactSizeIterator<Item = &'a T>) -> (usize, usize) {
+	let mut p = (it.len() * size_of::<T>(), 0);
+	for x in it {
+		p = add2(p, x.heap_payload());
+	}
+	p
+}
+
+impl<T: Subject> Subject for Vec<T> {
+	fn shape() -> Shape {
+		Shape::Seq(SeqKind::Vec, b(T::shape()))
+	}
+	fn from_value(v: &Value) -> Self {
+		seq_from(v)
+	}
+	fn to_value(&self) -> Value {
+		seq_to(self.iter())
+	}
+	fn heap_payload(&self) -> (usize, usize) {
+		seq_payload(self.iter())
+	}
+}
+impl<T: Subject> Subject for VecDeque<T> {
+	fn shape() -> Shape {
+		Shape::Seq(SeqKind::Deque, b(T::shape()))
+	}
+	fn from_value(v: &Value) -> Self {
+		seq_from::<T>(v).into()
+	}
+	fn to_value(&self) -> Value {
+		seq_to(self.iter())
+	}
+	fn heap_payload(&self) -> (usize, usize) {
+		seq_payload(self.iter())
+	}
+}
+impl<T: Subject> Subject for LinkedList<T> {
+	fn shape() -> Shape {
+		Shape::Seq(SeqKind::List, b(T::shape()))
+	}
+	fn from_value(v: &Value) -> Self {
+		seq_from::<T>(v).into_iter().collect()
+	}
+	fn to_value(&self) -> Value {
+		seq_to(self.iter())
+	}
+	fn heap_payload(&self) -> (usize, usize) {
+		seq_payload(self.iter())
+	}
+}
+impl<T: Subject + Ord> Subject for BinaryHeap<T> {
+	fn shape() -> Shape {
+		Shape::Seq(SeqKind::Heap, b(T::shape()))
+	}
+	fn from_value(v: &Value) -> Self {
+		seq_from::<T>(v).into()
+	}
+	fn to_value(&self) -> Value {
+		match seq_to(self.iter()) {
+			Value::List(mut xs) => {
+				xs.sort();
+				Value::List(xs)
+			},
+			other => other,
+		}
+	}
+	fn heap_payload(&self) -> (usize, usize) {
+		seq_payload(self.iter())
+	}
+}
+impl<T: Subject + Ord> Subject for BTreeSet<T> {
+	fn shape() -> Shape {
+		Shape::Seq(SeqKind::Set, b(T::shape()))
+	}
+	fn from_value(v: &Value) -> Self {
+		seq_from::<T>(v).into_iter().collect()
+	}
+	fn to_value(&self) -> Value {
+		seq_to(self.iter())
+	}
+	fn heap_payload(&self) -> (usize, usize) {
+		let p = seq_payload(self.iter());
+		// node storage is only bounded within a factor of two by the property
+		(p.0 - self.len() * size_of::<T>(), p.1 + self.len() * size_of::<T>())
+	}
+}
+impl<K: Subject + Ord, V: Subject> Subject for BTreeMap<K, V> {
+	fn shape() -> Shape {
+		Shape::Map(b(K::shape()), b(V::shape()))
+	}
+	fn from_value(v: &Value) -> Self {
+		match v {
+			Value::Map(xs) => xs.iter().map(|(k, v)| (K::from_value(k), V::from_value(v))).collect(),
+			_ => panic!("bad map value {:?}", v),
+		}
+	}
+	fn to_value(&self) -> Value {
+		Value::Map(self.iter().map(|(k, v)| (k.to_value(), v.to_value())).collect())
+	}
+	fn heap_payload(&self) -> (usize, usize) {
+		let mut p = (0, self.len() * size_of::<(K, V)>());
+		for (k, v) in self {
+			p = add2(p, add2(k.heap_payload(), v.heap_payload()));
+		}
+		p
+	}
+}
+
+impl<T: Subject, const N: usize> Subject for [T; N] {
+	const ZW: bool = N == 0 || T::ZW;
+	fn shape() -> Shape {
+		Shape::Array(N, b(T::shape()))
+	}
+	fn from_value(v: &Value) -> Self {
+		let xs: Vec<T> = seq_from(v);
+		match xs.try_into() {
+			Ok(a) => a,
+			Err(_) => panic!("bad array length"),
+		}
+	}
+	fn to_value(&self) -> Value {
+		seq_to(self.iter())
+	}
+	fn zw_instance() -> Self {
+		std::array::from_fn(|_| T::zw_instance())
+	}
+	fn heap_payload(&self) -> (usize, usize) {
+		let mut p = (0, 0);
+		for x in self {
+			p = add2(p, x.heap_payload());
+		}
+		p
+	}
+}
+
+impl<T: Subject, N: generic_array::ArrayLength<T> + 'static> Subject
+	for generic_array::GenericArray<T, N>
+{
+	fn shape() -> Shape {
+		Shape::Array(N::to_usize(), b(T::shape()))
+	}
+	fn from_value(v: &Value) -> Self {
+		generic_array::GenericArray::from_exact_iter(seq_from::<T>(v)).expect("bad array length")
+	}
+	fn to_value(&self) -> Value {
+		seq_to(self.iter())
+	}
+}
+
+macro_rules! impl_tuple {
+	($( ($($n:ident $i:tt),+) ),*) => {$(
+		impl<$($n: Subject),+> Subject for ($($n,)+) {
+			const ZW: bool = true $(&& $n::ZW)+;
+			fn shape() -> Shape { Shape::Tuple(vec![$($n::shape()),+]) }
+			fn from_value(v: &Value) -> Self {
+				match v {
+					Value::List(xs) => ($($n::from_value(&xs[$i]),)+),
+					_ => panic!("bad tuple value {:?}", v),
+				}
+			}
+			fn to_value(&self) -> Value { Value::List(vec![$(self.$i.to_value()),+]) }
+			fn zw_instance() -> Self { ($($n::zw_instance(),)+) }
+			fn heap_payload(&self) -> (usize, usize) {
+				let mut p = (0, 0);
+				$( p = add2(p, self.$i.heap_payload()); )+
+				p
+			}
+		}
+	)*}
+}
+impl_tuple!(
+	(A 0),
+	(A 0, B 1),
+	(A 0, B 1, C 2),
+	(A 0, B 1, C 2, D 3),
+	(A 0, B 1, C 2, D 3, E 4),
+	(A 0, B 1, C 2, D 3, E 4, F 5),
+	(A 0, B 1, C 2, D 3, E 4, F 5, G 6),
+	(A 0, B 1, C 2, D 3, E 4, F 5, G 6, H 7),
+	(A 0, B 1, C 2, D 3, E 4, F 5, G 6, H 7, I 8),
+	(A 0, B 1, C 2, D 3, E 4, F 5, G 6, H 7, I 8, J 9),
+	(A 0, B 1, C 2, D 3, E 4, F 5, G 6, H 7, I 8, J 9, K 10),
+	(A 0, B 1, C 2, D 3, E 4, F 5, G 6, H 7, I 8, J 9, K 10, L 11),
+	(A 0, B 1, C 2, D 3, E 4, F 5, G 6, H 7, I 8, J 9, K 10, L 11, M 12),
+	(A 0, B 1, C 2, D 3, E 4, F 5, G 6, H 7, I 8, J 9, K 10, L 11, M 12, N 13),
+	(A 0, B 1, C 2, D 3, E 4, F 5, G 6, H 7, I 8, J 9, K 10, L 11, M 12, N 13, O 14),
+	(A 0, B 1, C 2, D 3, E 4, F 5, G 6, H 7, I 8, J 9, K 10, L 11, M 12, N 13, O 14, P 15),
+	(A 0, B 1, C 2, D 3, E 4, F 5, G 6, H 7, I 8, J 9, K 10, L 11, M 12, N 13, O 14, P 15, Q 16),
+	(A 0, B 1, C 2, D 3, E 4, F 5, G 6, H 7, I 8, J 9, K 10, L 11, M 12, N 13, O 14, P 15, Q 16, R 17)
+);
+
+impl Subject for String {
+	fn shape() -> Shape {
+		Shape::Str
+	}
+	fn from_value(v: &Value) -> Self {
+		match v {
+			Value::Str(s) => s.clone(),
+			_ => panic!("bad string value {:?}", v),
+		}
+	}
+	fn to_value(&self) -> Value {
+		Value::Str(self.clone())
+	}
+	fn heap_payload(&self) -> (usize, usize) {
+		(self.len(), 0)
+	}
+}
+
+impl Subject for bytes::Bytes {
+	fn shape() -> Shape {
+		Shape::Bytes
+	}
+	fn from_value(v: &Value) -> Self {
+		match v {
+			Value::Bytes(s) => bytes::Bytes::from(s.clone()),
+			_ => panic!("bad bytes value {:?}", v),
+		}
+	}
+	fn to_value(&self) -> Value {
+		Value::Bytes(self.to_vec())
+	}
+	fn heap_payload(&self) -> (usize, usize) {
+		(self.len(), 0)
+	}
+}
+
+macro_rules! impl_wrap {
+	($($w:ident $k:ident),*) => {$(
+		impl<T: Subject> Subject for $w<T> {
+			const ZW: bool = T::ZW;
+			fn shape() -> Shape { Shape::Wrap(WrapKind::$k, b(T::shape())) }
+			fn from_value(v: &Value) -> Self { $w::new(T::from_value(v)) }
+			fn to_value(&self) -> Value { (**self).to_value() }
+			fn zw_instance() -> Self { $w::new(T::zw_instance()) }
+			fn heap_payload(&self) -> (usize, usize) { add2((size_of::<T>(), 0), (**self).heap_payload()) }
+		}
+	)*}
+}
+impl_wrap!(Box Box, Rc Rc, Arc Arc);
+
+impl<T: Subject + Clone> Subject for Cow<'static, T> {
+	const ZW: bool = T::ZW;
+	fn shape() -> Shape {
+		Shape::Wrap(WrapKind::Cow, b(T::shape()))
+	}
+	fn from_value(v: &Value) -> Self {
+		Cow::Owned(T::from_value(v))
+	}
+	fn to_value(&self) -> Value {
+		(**self).to_value()
+	}
+	fn zw_instance() -> Self {
+		Cow::Owned(T::zw_instance())
+	}
+	fn heap_payload(&self) -> (usize, usize) {
+		(**self).heap_payload()
+	}
+}
+impl Subject for Cow<'static, str> {
+	fn shape() -> Shape {
+		Shape::Wrap(WrapKind::Cow, b(Shape::Str))
+	}
+	fn from_value(v: &Value) -> Self {
+		Cow::Owned(String::from_value(v))
+	}
+	fn to_value(&self) -> Value {
+		Value::Str(self.to_string())
+	}
+	fn heap_payload(&self) -> (usize, usize) {
+		(self.len(), 0)
+	}
+}
+impl<T: Subject + Clone> Subject for Cow<'static, [T]> {
+	fn shape() -> Shape {
+		Shape::Wrap(WrapKind::Cow, b(Shape::Seq(SeqKind::Vec, b(T::shape()))))
+	}
+	fn from_value(v: &Value) -> Self {
+		Cow::Owned(seq_from(v))
+	}
+	fn to_value(&self) -> Value {
+		seq_to(self.iter())
+	}
+	fn heap_payload(&self) -> (usize, usize) {
+		seq_payload(self.iter())
+	}
+}
+
+impl Subject for Duration {
+	fn shape() -> Shape {
+		Shape::Duration
+	}
+	fn from_value(v: &Value) -> Self {
+		match v {
+			Value::List(xs) => Duration::new(u64::from_value(&xs[0]), u32::from_value(&xs[1])),
+			_ => panic!("bad duration value {:?}", v),
+		}
+	}
+	fn to_value(&self) -> Value {
+		Value::List(vec![Value::U(self.as_secs() as u128), Value::U(self.subsec_nanos() as u128)])
+	}
+}
+impl<T: Subject> Subject for Range<T> {
+	const ZW: bool = T::ZW;
+	fn shape() -> Shape {
+		Shape::Range(b(T::shape()))
+	}
+	fn from_value(v: &Value) -> Self {
+		match v {
+			Value::List(xs) => T::from_value(&xs[0])..T::from_value(&xs[1]),
+			_ => panic!("bad range value {:?}", v),
+		}
+	}
+	fn to_value(&self) -> Value {
+		Value::List(vec![self.start.to_value(), self.end.to_value()])
+	}
+}
+impl<T: Subject> Subject for RangeInclusive<T> {
+	const ZW: bool = T::ZW;
+	fn shape() -> Shape {
+		Shape::RangeIncl(b(T::shape()))
+	}
+	fn from_value(v: &Value) -> Self {
+		match v {
+			Value::List(xs) => T::from_value(&xs[0])..=T::from_value(&xs[1]),
+			_ => panic!("bad range value {:?}", v),
+		}
+	}
+	fn to_value(&self) -> Value {
+		Value::List(vec![self.start().to_value(), self.end().to_value()])
+	}
+}
+
+pub trait OrderTag: BitOrder + 'static {
+	const MSB0: bool;
+}
+impl OrderTag for Lsb0 {
+	const MSB0: bool = false;
+}
+impl OrderTag for Msb0 {
+	const MSB0: bool = true;
+}
+
+impl<S: BitStore + 'static, O: OrderTag> Subject for BitVec<S, O> {
+	fn shape() -> Shape {
+		Shape::Bits { store: (size_of::<S>() * 8) as u32, msb0: O::MSB0 }
+	}
+	fn from_value(v: &Value) -> Self {
+		match v {
+			Value::Bits(bs) => bs.iter().copied().collect(),
+			_ => panic!("bad bits value {:?}", v),
+		}
+	}
+	fn to_value(&self) -> Value {
+		Value::Bits(self.iter().by_vals().collect())
+	}
+	fn heap_payload(&self) -> (usize, usize) {
+		(self.len().div_ceil(8), 0)
+	}
+}
+impl<S: BitStore + 'static, O: OrderTag> Subject for BitBox<S, O> {
+	fn shape() -> Shape {
+		Shape::Bits { store: (size_of::<S>() * 8) as u32, msb0: O::MSB0 }
+	}
+	fn from_value(v: &Value) -> Self {
+		BitVec::<S, O>::from_value(v).into_boxed_bitslice()
+	}
+	fn to_value(&self) -> Value {
+		Value::Bits(self.iter().by_vals().collect())
+	}
+	fn heap_payload(&self) -> (usize, usize) {
+		(self.len().div_ceil(8), 0)
+	}
+}
